@@ -300,6 +300,130 @@ fn monitor(rep: &mut Report, history: u64, st: &Step) {
     }
 }
 
+/// CTAP2-level workload: salts are given directly (no hashing), `hmac-secret` can be requested
+/// explicitly, per-credential salts are keyed by raw credential ids.
+fn ctap_level(rep: &mut Report, seed: u64, idx: u64) {
+    use crate::{exec::block_on, util::{descriptor, ga_request, mc_request, pk_param, Rig}};
+    use passkey_types::ctap2::{extensions::{AuthenticatorPrfInputs, AuthenticatorPrfValues}, get_assertion, make_credential};
+    let mut rng = Rng::derive(seed, "c09ctap", idx);
+    let cfg = AuthCfg { counters: rng.bool(), id_len: None, hmac: *rng.pick(&[HmacCfg::None, HmacCfg::UvOnly, HmacCfg::WithoutUv, HmacCfg::WithoutUv]), hmac_mc: rng.bool() };
+    let verified = !rng.chance(1, 3);
+    let rig = Rig::new(Disc::Full, UvOutcome::Check { presence: true, verification: verified }, Some(true));
+    let mut auth = rig.auth(cfg);
+    let capability = cfg.hmac != HmacCfg::None;
+    let mut ids: Vec<Vec<u8>> = Vec::new();
+    for r in 0..rng.range(1, 2) {
+        rep.eval();
+        let hmac_secret = *rng.pick(&[None, Some(true), Some(false)]);
+        let eval = if rng.chance(2, 3) { Some(AuthenticatorPrfValues { first: rng.arr32(), second: if rng.bool() { Some(rng.arr32()) } else { None } }) } else { None };
+        let prf = if rng.chance(3, 4) { Some(AuthenticatorPrfInputs { eval: eval.clone(), eval_by_credential: None }) } else { None };
+        let uv_req = verified && rng.bool();
+        let ext = if hmac_secret.is_some() || prf.is_some() { Some(make_credential::ExtensionInputs { hmac_secret, hmac_secret_mc: None, prf: prf.clone() }) } else { None };
+        let case = json!({"index": idx, "level": "ctap", "step": format!("make#{r}"), "config": cfg.json(), "hmac_secret": hmac_secret, "prf_requested": prf.is_some(), "eval": eval.is_some(), "uv_requested": uv_req, "user_verified": verified});
+        let before = rig.store.snapshot();
+        let res = block_on(auth.make_credential(mc_request("example.com", &[b'c', r as u8], &[1u8; 32], vec![pk_param(coset::iana::Algorithm::ES256)], None, ext, false, true, uv_req)));
+        let after = rig.store.snapshot();
+        let Ok(resp) = res else {
+            rep.count("ctap_make_err");
+            continue;
+        };
+        let Some(stored) = after.iter().find(|a| !before.contains(a)).cloned() else { continue };
+        ids.push(stored.id.clone());
+        let out = resp.unsigned_extension_outputs.as_ref().and_then(|u| u.prf.as_ref());
+        rep.nontrivial(fnv_str(&format!("ctap-make|{:?}|{}|{hmac_secret:?}|{}|{}|{uv_req}|{verified}", cfg.hmac, cfg.hmac_mc, prf.is_some(), eval.is_some())));
+        if !capability {
+            rep.count("no_capability_checked");
+            if out.is_some() {
+                rep.violate("ctap: PRF output from an authenticator without the capability (registration)", String::new(), case.clone());
+            }
+            if stored.hmac_uv.is_some() {
+                rep.violate("ctap: PRF secret stored by an authenticator without the capability", String::new(), case.clone());
+            }
+            continue;
+        }
+        if let Some(o) = out {
+            rep.count("ctap_enabled_checked");
+            if o.enabled != stored.hmac_uv.is_some() {
+                rep.violate("ctap: registration reports prf.enabled differently from whether secrets were stored", format!("enabled {}, stored {}", o.enabled, stored.hmac_uv.is_some()), case.clone());
+            }
+            if let (Some(res), Some(ev)) = (&o.results, &eval) {
+                rep.count("ctap_registration_results_compared");
+                let mut adm: Vec<Vec<u8>> = Vec::new();
+                if verified {
+                    adm.extend(stored.hmac_uv.clone());
+                }
+                adm.extend(stored.hmac_no_uv.clone());
+                if !adm.iter().any(|s| oracle::hmac_sha256(s, &ev.first) == res.first) {
+                    rep.violate("ctap: registration PRF result is not HMAC-SHA-256(admissible secret, salt)", String::new(), case.clone());
+                }
+            }
+        } else if prf.is_some() && stored.hmac_uv.is_some() {
+            rep.violate("ctap: secrets stored at registration but no prf output reported", String::new(), case.clone());
+        }
+    }
+    for g in 0..rng.range(1, 4) {
+        if ids.is_empty() {
+            break;
+        }
+        rep.eval();
+        let k = rng.below(ids.len());
+        let id = ids[k].clone();
+        let default_eval = if rng.chance(2, 3) { Some(AuthenticatorPrfValues { first: rng.arr32(), second: if rng.bool() { Some(rng.arr32()) } else { None } }) } else { None };
+        let mut by: Option<std::collections::HashMap<passkey_types::Bytes, AuthenticatorPrfValues>> = None;
+        let mut own: Option<AuthenticatorPrfValues> = None;
+        if rng.bool() {
+            let mut m = std::collections::HashMap::new();
+            if rng.chance(2, 3) {
+                let v = AuthenticatorPrfValues { first: rng.arr32(), second: None };
+                own = Some(v.clone());
+                m.insert(passkey_types::Bytes::from(id.clone()), v);
+            }
+            m.insert(passkey_types::Bytes::from(rng.bytes(16)), AuthenticatorPrfValues { first: rng.arr32(), second: None });
+            by = Some(m);
+        }
+        let uv_req = verified && rng.bool();
+        let req = ga_request("example.com", &[2u8; 32], Some(vec![descriptor(&id)]), Some(get_assertion::ExtensionInputs { hmac_secret: None, prf: Some(AuthenticatorPrfInputs { eval: default_eval.clone(), eval_by_credential: by.clone() }) }), true, uv_req);
+        let case = json!({"index": idx, "level": "ctap", "step": format!("get#{g}"), "config": cfg.json(), "default_eval": default_eval.is_some(), "per_credential_for_used": own.is_some(), "per_credential_map": by.is_some(), "uv_requested": uv_req, "user_verified": verified});
+        let before = rig.store.snapshot();
+        let Ok(resp) = block_on(auth.get_assertion(req)) else {
+            rep.count("ctap_get_err");
+            continue;
+        };
+        let out = resp.unsigned_extension_outputs.as_ref().and_then(|u| u.prf.as_ref());
+        rep.nontrivial(fnv_str(&format!("ctap-get|{:?}|{}|{}|{}|{uv_req}|{verified}", cfg.hmac, default_eval.is_some(), own.is_some(), by.is_some())));
+        if !capability {
+            if out.is_some() {
+                rep.violate("ctap: PRF output from an authenticator without the capability (authentication)", String::new(), case.clone());
+            }
+            continue;
+        }
+        let Some(o) = out else { continue };
+        let Some(used) = before.iter().find(|c| c.id == id) else { continue };
+        let selected = own.clone().or(default_eval.clone());
+        let Some(sel) = selected else {
+            rep.violate("ctap: PRF results produced although no inputs apply to the used credential", String::new(), case.clone());
+            continue;
+        };
+        if own.is_some() {
+            rep.count("per_credential_inputs_present");
+        }
+        let secret = if verified { used.hmac_uv.clone() } else { used.hmac_no_uv.clone() };
+        rep.count("ctap_authentication_results_compared");
+        match secret {
+            Some(sct) if oracle::hmac_sha256(&sct, &sel.first) == o.results.first => {
+                if let (Some(r2), Some(s2)) = (&o.results.second, &sel.second) {
+                    if oracle::hmac_sha256(&sct, s2) != *r2 {
+                        rep.violate("ctap: second PRF result is not the HMAC of the second salt under the same secret", String::new(), case.clone());
+                    }
+                } else if o.results.second.is_some() {
+                    rep.violate("ctap: second PRF result without a second salt", String::new(), case.clone());
+                }
+            }
+            _ => rep.violate("ctap: assertion PRF result is not HMAC-SHA-256(secret admissible for this ceremony, selected salt)", format!("user verified: {verified}; per-credential inputs for the used credential: {}", own.is_some()), case.clone()),
+        }
+    }
+}
+
 fn gen_history(rng: &mut Rng) -> Vec<Op> {
     let mut ops = Vec::new();
     let n_reg = rng.range(1, 3);
@@ -424,6 +548,14 @@ pub fn run(args: &Args) -> Report {
             rep.violate(&format!("ceremony {sig}"), d, json!({"index": h, "config": cfg.json(), "ops": ops.iter().map(|o| o.json()).collect::<Vec<_>>()}));
         }
     }
+    for k in 0..args.size(600, 12_000) as u64 {
+        let idx = 40_000_000 + k;
+        if only.map_or(true, |o| o == idx) {
+            if let Err((sig, d)) = catch(|| ctap_level(&mut rep, args.seed, idx)) {
+                rep.violate(&format!("ctap ceremony {sig}"), d, json!({"index": idx}));
+            }
+        }
+    }
     let _ = cer::RPS;
     if only.is_none()
         && (rep.get("authentication_results_compared") == 0
@@ -431,7 +563,9 @@ pub fn run(args: &Args) -> Report {
             || rep.get("malformed_requests") == 0
             || rep.get("authentication_keyed_with:uv-gated") == 0
             || rep.get("authentication_keyed_with:non-gated") == 0
-            || rep.get("per_credential_inputs_present") == 0)
+            || rep.get("per_credential_inputs_present") == 0
+            || rep.get("ctap_enabled_checked") == 0
+            || rep.get("ctap_authentication_results_compared") == 0)
     {
         rep.inconclusive("a class of PRF observations (results at registration / authentication, both secrets, per-credential inputs, malformed requests) was never produced".into());
     }
